@@ -274,6 +274,12 @@ def check_unfreeze(R, repo):
       rec = [x for x in astu.func_calls(un) if astu.call_name(x) == 'unfreeze']
       if not rec:
         ok, msg = False, 'dict branch must unfreeze nested values recursively'
+      # the recursion must be unconditional: a value passed through as is (`unfreeze(v) if isinstance(v, FrozenDict) else v`)
+      # leaves nested plain dicts shared with the argument
+      cond = [y for y in ast.walk(un.node) if isinstance(y, ast.IfExp) and any(x is y.body or any(z is x for z in ast.walk(y.body)) for x in rec) and isinstance(y.orelse, ast.Name)]
+      cond += [y for y in ast.walk(un.node) if isinstance(y, ast.IfExp) and any(any(z is x for z in ast.walk(y.orelse)) for x in rec) and isinstance(y.body, ast.Name)]
+      if cond:
+        ok, msg = False, '`%s` copies a nested value only under a condition and otherwise hands the very object through: nested plain dicts stay shared with the argument, so writing into the "unfrozen copy" (as Scope does for mutable collections) writes into the caller\'s variables' % astu.short(cond[0])
   R.check(ok, key_of(un, 'fresh containers on every branch'), un, 'unfreeze: ' + msg, evidence=True)
 
 
@@ -383,6 +389,24 @@ def r3(R, repo):
       continue
     R.check(len(rets) == 1 and (astu.src(rets[0].value) == '%s(self)' % view or (vname == 'keys' and over_private)), key_of(g, 'view over self'), g,
             'FrozenDict.%s must return a view over the FrozenDict itself (element access through __getitem__)' % vname)
+
+
+@rule('C15.R6', 'K4', 1, 'FrozenDict flatten / unflatten agree on the representation of children (raw stored values both ways)')
+def r6(R, repo):
+  mod = repo.mod(FD)
+  fl, un = mod.func('FrozenDict.tree_flatten_with_keys'), mod.func('FrozenDict.tree_unflatten')
+  key = key_of(fl, 'children are the stored values, as tree_unflatten stores them back unconverted')
+  skip = any(astu.kwarg(x, '__unsafe_skip_copy__') is not None and astu.is_const(astu.kwarg(x, '__unsafe_skip_copy__'), True) for x in astu.func_calls(un))
+  me = astu.params(fl.node)[0]
+  raw = [n for n in ast.walk(fl.node) if isinstance(n, ast.Subscript) and astu.src(n.value) == me + '._dict' and isinstance(n.ctx, ast.Load)]
+  wrapped = [n for n in ast.walk(fl.node) if isinstance(n, ast.Subscript) and astu.src(n.value) == me and isinstance(n.ctx, ast.Load)]
+  wrapped += [x for x in astu.func_calls(fl) if astu.src(x.func) in (me + '.items', me + '.values', me + '.get')]
+  if wrapped and skip:
+    R.fail(key, (fl, wrapped[0]), '`%s` hands JAX children that went through __getitem__ (nested dicts wrapped in FrozenDict), while tree_unflatten installs the children it receives without conversion: after any tree_map / jit round trip the private dict holds FrozenDict nodes, so unfreeze() returns immutable nested FrozenDicts instead of dicts and the tree structure differs from the one that was flattened' % astu.short(wrapped[0]))
+  elif raw:
+    R.ok(key, (fl, raw[0]))
+  else:
+    R.unsure(key, fl, 'children expression of tree_flatten_with_keys not recognised')
 
 
 @rule('C15.R4', 'K4+K2', 8, 'struct.dataclass: frozen by default, every field is data xor static, registered in that order')
